@@ -11,9 +11,29 @@ import GrogModel.Lemmas.GraphSelect
 namespace Grog.C12
 open Grog
 
-/-- node `m` matches the patterns and the tag / exclude-tag / type filters and the host platform -/
+/-- node `m` matches the patterns and the tag / exclude-tag / type filters and the host platform. A target is
+    tested itself; an alias by its own label against the patterns and *the target it points to* against the
+    type / tag / exclude-tag / platform filters (`selMatchesAt`, `selPlatAt`) — so an excluded target is never
+    selected merely because it has an alias (before the fix it was: `alias_bypass_witness_old`). -/
 def Matched (g : BuildGraph) (s : Selector) (h : Host) (m : Nat) : Prop :=
-  g.matchesAt s m = true ∧ g.platAt h m = true
+  g.selMatchesAt s m = true ∧ g.selPlatAt h m = true
+
+theorem selMatchesAt_lt {g : BuildGraph} {s : Selector} {m : Nat} (h : g.selMatchesAt s m = true) : m < g.nodes.length := by
+  simp only [BuildGraph.selMatchesAt] at h
+  by_cases hlt : m < g.nodes.length
+  · exact hlt
+  · rw [List.getElem?_eq_none (by omega)] at h; simp at h
+
+/-- a starting point that passes the (alias-resolving) platform test passes the node-level one the ancestor walk uses -/
+theorem selPlatAt_platAt {g : BuildGraph} {h : Host} {m : Nat} (hp : g.selPlatAt h m = true) : g.platAt h m = true := by
+  simp only [BuildGraph.selPlatAt, BuildGraph.platAt] at hp ⊢
+  cases hn : g.nodes[m]? with
+  | none => simp [hn] at hp
+  | some n =>
+    simp only [hn] at hp ⊢
+    cases ht : n.isTarget with
+    | true => simpa [ht] using hp
+    | false => simp [platformOK, ht]
 
 /-- `x` is `m` or a transitive dependency of `m` -/
 def DepOf (g : BuildGraph) (x m : Nat) : Prop := Reach g.edges x m
@@ -35,12 +55,7 @@ theorem mem_roots {g : BuildGraph} {s : Selector} {h : Host} {order : List Nat} 
   constructor
   · exact fun hm => hm.2
   · intro hm
-    refine ⟨hc m ?_, hm⟩
-    have := hm.1
-    simp only [BuildGraph.matchesAt] at this
-    by_cases hlt : m < g.nodes.length
-    · exact hlt
-    · rw [List.getElem?_eq_none (by omega)] at this; simp at this
+    exact ⟨hc m (selMatchesAt_lt hm.1), hm⟩
 
 /-- On success the selected set is exactly the matching nodes together with all their transitive
     dependencies (edges through aliases are edges). -/
@@ -94,12 +109,7 @@ theorem platform_error_iff (g : BuildGraph) (s : Selector) (h : Host) (order : L
       ∃ m x, Matched g s h m ∧ DepOf g x m ∧ Incompatible g h x := by
   have hlt : ∀ m x, Matched g s h m → Reach g.edges x m → x < g.nodes.length := by
     intro m x hm hr
-    have hm' : m < g.nodes.length := by
-      have := hm.1
-      simp only [BuildGraph.matchesAt] at this
-      by_cases hlt : m < g.nodes.length
-      · exact hlt
-      · rw [List.getElem?_eq_none (by omega)] at this; simp at this
+    have hm' : m < g.nodes.length := selMatchesAt_lt hm.1
     cases hr with
     | refl => exact hm'
     | step e _ => exact (hwf _ e).1
@@ -114,7 +124,7 @@ theorem platform_error_iff (g : BuildGraph) (s : Selector) (h : Host) (order : L
     · exfalso
       have hspec := selectLoop_ok_spec hok
       have hx : x ∈ sel := (hspec.1 x).mpr ⟨m, (mem_roots hc m).mpr hm, hdep⟩
-      have hallok := hspec.2.2.1 (fun r hr => ((mem_roots hc r).mp hr).2) x hx
+      have hallok := hspec.2.2.1 (fun r hr => selPlatAt_platAt ((mem_roots hc r).mp hr).2) x hx
       have := (platAt_false_iff (hlt m x hm hdep)).mpr hinc
       rw [this] at hallok; cases hallok
     · exact herr
@@ -154,6 +164,25 @@ end Ex
 example : selectForBuild Ex.g Ex.sel Ex.linux [0, 1, 2] = .platformError 0 := by decide
 /-- … and with `--all-platforms` the alias and its target are selected (in any order). -/
 example : selectForBuild Ex.g Ex.sel Ex.anyHost [2, 0, 1] = .ok [0, 1, 2] 3 := by decide
+/-! the alias finding: `lib` (tag `slow`) ← `al` (alias), `app`; `--exclude-tag=slow //...` -/
+namespace ExAlias
+def slow : Bytes := [115]
+def g : BuildGraph :=
+  ⟨[⟨Ex.lbl [108], true, [slow], [], false⟩, ⟨Ex.lbl [97, 108], false, [], [], false⟩, ⟨Ex.lbl [97, 112], true, [], [], false⟩],
+   [(0, 1)]⟩
+def sel : Selector := ⟨[⟨[], [], true⟩], [], [slow], .all⟩
+end ExAlias
+
+/-- current code: the alias of an excluded target is not a starting point; only `app` is selected … -/
+theorem alias_filtered_witness : selectForBuild ExAlias.g ExAlias.sel Ex.linux [0, 1, 2] = .ok [2] 1 := by decide
+
+/-- … whereas selecting aliases by pattern alone (the tree before the fix) selected the alias and with it the
+    excluded target `lib` (replayed on the real CLI by tools/checks/c12.py, signature `alias-bypasses-filters`). -/
+theorem alias_bypass_witness_old :
+    selectLoop ExAlias.g.edges (ExAlias.g.platAt Ex.linux)
+      ([0, 1, 2].filter (fun i => ExAlias.g.selMatchesAtOld ExAlias.sel i && ExAlias.g.platAt Ex.linux i)) [] 0 = .ok [2, 0, 1] 3 := by
+  decide
+
 example : WF Ex.g ∧ Covers Ex.g [2, 0, 1] := by
   refine ⟨by unfold WF; decide, ?_⟩
   intro i hi
